@@ -17,6 +17,7 @@ import time
 
 VERIF = os.path.dirname(os.path.dirname(os.path.abspath(__file__)))
 REPO = os.environ.get("VERIF_REPO", "/repo")
+OUT = os.environ.get("VERIF_OUT", VERIF)  # where evidence/ and replays/ are written (experiments and seeded runs redirect it)
 GOENV = dict(os.environ, GOFLAGS="-mod=mod", GOPROXY="off", GOSUMDB="off", GOTOOLCHAIN="local")
 
 PKG_DIR = {
@@ -409,8 +410,8 @@ def finish(spec, tier, seed, t0, results=None, out=None, inconclusive=None, vali
         ev["coverage"]["transitions"] = 1
     if ev["coverage"]["transitions"] < 1:
         ev["coverage"]["transitions"] = 1
-    os.makedirs(os.path.join(VERIF, "evidence"), exist_ok=True)
-    json.dump(ev, open(os.path.join(VERIF, "evidence", pid + ".json"), "w"), indent=1)
+    os.makedirs(os.path.join(OUT, "evidence"), exist_ok=True)
+    json.dump(ev, open(os.path.join(OUT, "evidence", pid + ".json"), "w"), indent=1)
 
     for kid, rec in sorted(known_seen.items()):
         print("KNOWN-FINDING: property=%s %s (%s; %d counterexample(s) this run)" % (pid, rec["k"]["what"], kid, rec["n"]))
@@ -419,7 +420,7 @@ def finish(spec, tier, seed, t0, results=None, out=None, inconclusive=None, vali
                                                        asserts + trivial, asserts, solver["queries"], solver["wall_s"], validated, wit_total,
                                                        time.time() - t0))
     if confirmed:
-        os.makedirs(os.path.join(VERIF, "replays"), exist_ok=True)
+        os.makedirs(os.path.join(OUT, "replays"), exist_ok=True)
         seen = set()
         for v in confirmed:
             key = v["msg"] + "|" + v["job"]["body"] + "|" + json.dumps(v["job"]["params"], sort_keys=True)
@@ -427,7 +428,7 @@ def finish(spec, tier, seed, t0, results=None, out=None, inconclusive=None, vali
                 continue
             seen.add(key)
             h = hashlib.sha1(json.dumps(v, sort_keys=True).encode()).hexdigest()[:10]
-            path = os.path.join(VERIF, "replays", "%s-%s.json" % (pid, h))
+            path = os.path.join(OUT, "replays", "%s-%s.json" % (pid, h))
             json.dump({"property": pid, "files": spec.files, "pkg_short": [j for j in [v["job"]]][0].get("pkg_short", ""),
                        "violation": v}, open(path, "w"), indent=1)
             print("VIOLATION property=%s replay=%s" % (pid, path))
